@@ -95,7 +95,9 @@ func C05(p *core.Program, r *core.Report) {
 	if sa := mustInl(p, r, "S2", stripKey); sa != nil {
 		// the per-attribute decision: one iteration of the loop that tests the attribute key
 		found := false
-		for _, h := range loopHeaders(sa) {
+		hs := loopHeaders(sa)
+		for i := len(hs) - 1; i >= 0 && !found; i-- { // innermost first: the loop over the attributes of one element
+			h := hs[i]
 			paths, atoms, _ := core.EnumerateDecisions(p, sa, core.DecisionOpts{IterateAt: h, Outcome: noOutcome,
 				Event: func(in ssa.Instruction, c *core.Canon) (string, bool) {
 					if call, ok := in.(*ssa.Call); ok {
@@ -115,6 +117,29 @@ func C05(p *core.Program, r *core.Report) {
 				continue
 			}
 			found = true
+			// an attribute is kept only after the allow-list said yes
+			nKeep, badKeep := 0, 0
+			var witKeep []string
+			for _, pa := range paths {
+				if len(pathEvents(pa)) == 0 {
+					continue
+				}
+				nKeep++
+				allowed := false
+				for _, l := range pa.Lits {
+					if strings.HasPrefix(l.Atom, "in(set‹") && strings.HasSuffix(l.Atom, ","+subject+")") && l.Val {
+						allowed = true
+					}
+				}
+				if !allowed {
+					badKeep++
+					if len(witKeep) < 2 {
+						witKeep = append(witKeep, pa.String())
+					}
+				}
+			}
+			r.Add("S2", "StripAttributes keeps an attribute only if the allow-list contains its name", p.Pos(sa.Pos()), nKeep > 0 && badKeep == 0,
+				fmt.Sprintf("%d iteration paths keep the attribute, %d of them without a positive allow-list lookup", nKeep, badKeep), witKeep...)
 			for _, k := range []string{"id", "class", "style"} {
 				n, kept := 0, 0
 				for _, pa := range consistentWith(paths, subject, k) {
@@ -164,6 +189,50 @@ func C05(p *core.Program, r *core.Report) {
 			}
 		}
 		r.Add("S2", "StripAttributes replaces the attribute list", p.Pos(sa.Pos()), nStore == 1, fmt.Sprintf("%d stores to Attr", nStore))
+		// ... for every element: no iteration of the loop over the elements ends without the store
+		loops, _ := core.NaturalLoops(sa)
+		var elemLoop *core.Loop
+		for _, l := range loops {
+			for b := range l.Body {
+				for _, in := range b.Instrs {
+					if st, ok := in.(*ssa.Store); ok && strings.HasSuffix(c.Of(st.Addr), ".Attr") {
+						if elemLoop == nil || len(l.Body) < len(elemLoop.Body) {
+							elemLoop = l
+						}
+					}
+				}
+			}
+		}
+		if elemLoop == nil {
+			r.Undecided("S2", "StripAttributes: loop over the elements", "no loop stores an attribute list")
+		} else {
+			paths, _, err := core.EnumerateDecisions(p, sa, core.DecisionOpts{IterateAt: elemLoop.Header, ExitOutcome: "exit", Outcome: noOutcome,
+				Event: func(in ssa.Instruction, c *core.Canon) (string, bool) {
+					if st, ok := in.(*ssa.Store); ok && strings.HasSuffix(c.Of(st.Addr), ".Attr") {
+						return "replace", true
+					}
+					return "", false
+				}})
+			if err != nil {
+				r.Undecided("S2", "StripAttributes: loop over the elements", err.Error())
+			}
+			n, bad := 0, 0
+			var wit []string
+			for _, pa := range paths {
+				if !strings.Contains(pa.Outcome, "next(") {
+					continue
+				}
+				n++
+				if len(pathEvents(pa)) != 1 {
+					bad++
+					if len(wit) < 2 {
+						wit = append(wit, pa.String())
+					}
+				}
+			}
+			r.Add("S2", "every element visited by StripAttributes gets its attribute list replaced", p.Pos(sa.Pos()), n > 0 && bad == 0,
+				fmt.Sprintf("%d iteration paths of the element loop, %d end without replacing the list (an element kind exempted from filtering)", n, bad), wit...)
+		}
 	}
 
 	// ---- S3
